@@ -1,11 +1,426 @@
 //! C04 (structure channel) and direct totality campaigns through the cfg-guarded hooks (see DESIGN.md section 6).
+//!
+//! NEEDS the hook commit (`askar_storage::verif_hooks`, proposals/C04S-hooks.diff): this module does not compile
+//! against a tree without it.
+//!
+//! kinds
+//! * `c04s:encode`          {"f": filter AST, "start": start_index, "enc": "toy"|"raw"} -> {"sql","raw","args"} | {"none":true}
+//!                          real `tag_query` + `TagSqlEncoder` + `encode_query` + `replace_arg_placeholders`, EXACT text
+//! * `c04s:replace`         {"text","start"} -> {"out"} | {"panic":true}        `replace_arg_placeholders` on arbitrary text
+//! * `c04s:decode_tags`     {"hex"} -> {"ok":[[name,value,plaintext]..]} | {"err":true} | {"panic":true}
+//! * `c04s:decode_tags_mut` {"hex"} -> counts + digest over EVERY single-byte substitution / truncation / deletion of the text
+//! * `c04s:extend`          {"stmt"|"base","nparams","f","off","lim","order","desc","enc"} -> {"base_ws","suffix","nparams"}
+//!                          `encode_tag_filter`-like + `extend_query` (what COUNT / SCAN / DELETE_ALL finally send to SQLite)
+use crate::canon::{filter_from_json, jerr};
+use crate::gen_store::{filter, root_filter, LIKE_PATTERNS, TAG_NAMES, TAG_VALUES};
 use crate::rng::Rng;
+use askar_storage::verif_hooks as hooks;
 use serde_json::{json, Value};
+use std::panic::{catch_unwind, AssertUnwindSafe};
 
-pub fn gen(_r: &mut Rng, _thorough: bool, _count: Option<usize>) -> Vec<Value> {
-    vec![]
+// ---------------------------------------------------------------------------------------------
+// the injected test encryptors (the SAME functions as `TagCrypto.toy` / `rawCrypto` of the Lean side)
+
+const M96: u128 = (1u128 << 96) - 1;
+
+fn toy_prefix(b: &[u8]) -> Vec<u8> {
+    // h := fold (acc * 1099511628211 + x + 1) mod 2^96, from 14695981039346656037; little-endian, 12 bytes
+    let mut h: u128 = 14695981039346656037;
+    for &x in b {
+        h = (h.wrapping_mul(1099511628211) & M96).wrapping_add(x as u128 + 1) & M96;
+    }
+    (0..12).map(|i| (h >> (8 * i)) as u8).collect()
 }
 
-pub fn exec(_case: &Value, _tag: &str) -> Value {
-    json!({"out": {"err": "not implemented"}})
+fn enc_name(mode: &str, s: &str) -> Vec<u8> {
+    if mode == "raw" { s.as_bytes().to_vec() } else { let mut v = vec![0x6e]; v.extend_from_slice(s.as_bytes()); v }
+}
+
+fn enc_value(mode: &str, s: &str) -> Vec<u8> {
+    if mode == "raw" { s.as_bytes().to_vec() } else { let mut v = toy_prefix(s.as_bytes()); v.extend_from_slice(s.as_bytes()); v }
+}
+
+// ---------------------------------------------------------------------------------------------
+// generators
+
+const STARTS: &[i64] = &[1, 3, 4, 10, 100];
+/// values whose UTF-8 length sits around the 12-byte prefix boundary (for the "raw" encryptor) and well beyond
+const LEN_VALUES: &[&str] = &["", "a", "0123456789a", "0123456789ab", "0123456789abc", "ü123456789a", "ü123456789ab",
+    "0123456789abcdef0123456789", "$1", "$$", "?1", "a'b\"c", "\u{10FFFF}\u{10FFFF}\u{10FFFF}"];
+
+fn wname(r: &mut Rng) -> String {
+    let n = match r.below(8) { 0 => "~~x", 1 => "$1", 2 => "?", _ => *r.pick(TAG_NAMES) };
+    if r.chance(1, 2) { format!("~{}", n) } else { n.to_string() }
+}
+
+fn wvalue(r: &mut Rng) -> String {
+    if r.chance(1, 2) { r.pick(LEN_VALUES).to_string() } else { r.pick(TAG_VALUES).to_string() }
+}
+
+/// out-of-domain shapes too: nested empty `$and` / `$or` / `$exist`, ordered comparison and LIKE on encrypted names,
+/// long `$in` lists, `$exist` over 0..5 names, chains of `$not`
+fn wild_filter(r: &mut Rng, depth: usize) -> Value {
+    let leaf = depth == 0 || r.chance(1, 3);
+    if leaf {
+        match r.below(12) {
+            0 => json!({"and": []}),
+            1 => json!({"or": []}),
+            2 => json!({"exist": []}),
+            3 | 4 => { let op = *r.pick(&["eq", "neq", "gt", "gte", "lt", "lte", "like"]); json!({op: [wname(r), wvalue(r)]}) }
+            5 => json!({"like": [wname(r), *r.pick(LIKE_PATTERNS)]}),
+            6 | 7 => {
+                let n = match r.below(6) { 0 => 0, 1 => 1, 2 => 2, 3 => 11, _ => 1 + r.below(5) };
+                let vs: Vec<String> = (0..n).map(|_| wvalue(r)).collect();
+                json!({"in": [wname(r), vs]})
+            }
+            8 | 9 => { let n = r.below(6); let ns: Vec<String> = (0..n).map(|_| wname(r)).collect(); json!({"exist": ns}) }
+            _ => filter(r, 0),
+        }
+    } else {
+        match r.below(4) {
+            0 => json!({"not": wild_filter(r, depth - 1)}),
+            1 => json!({"not": {"not": wild_filter(r, depth - 1)}}),
+            k => {
+                let n = match r.below(6) { 0 => 0, 1 => 1, _ => 1 + r.below(4) };
+                let qs: Vec<Value> = (0..n).map(|_| wild_filter(r, depth - 1)).collect();
+                json!({ if k == 2 { "and" } else { "or" }: qs })
+            }
+        }
+    }
+}
+
+fn any_filter(r: &mut Rng, thorough: bool) -> Value {
+    let depth = if thorough { 1 + r.below(7) } else { 1 + r.below(4) };
+    match r.below(3) { 0 => root_filter(r, depth), 1 => filter(r, depth), _ => wild_filter(r, depth) }
+}
+
+/// one piece of a structured placeholder text: (text, is it a `$N` placeholder, its expected replacement given (start, k))
+enum Piece { Text(String), Dd, Num(u64, String) }
+
+fn piece(r: &mut Rng) -> Piece {
+    match r.below(12) {
+        0 | 1 => Piece::Dd,
+        2 | 3 => { let n = r.below(121) as u64; Piece::Num(n, n.to_string()) }
+        4 => { let n = r.below(10) as u64; Piece::Num(n, format!("00{}", n)) }          // leading zeros parse fine
+        5 => Piece::Text(r.pick(&[" AND value = ", ", ", ")", " ", "(", " LIMIT ", "?", "?1", "a", "ü", "€", "\u{10FFFF}", "é ", "", "x1"]).to_string()),
+        6 => Piece::Text(r.pick(&["1", "2 ", "007", "9)"]).to_string()),                // digits (right after a placeholder: see `wf`)
+        _ => Piece::Text(r.pick(&[" name = ", "i.id IN (", " AND plaintext = 0)", " OR ", "ü", ",", " "]).to_string()),
+    }
+}
+
+fn gen_replace_structured(r: &mut Rng, id: String) -> Value {
+    let n = r.below(9);
+    let ps: Vec<Piece> = (0..n).map(|_| piece(r)).collect();
+    let start = if r.chance(1, 12) { *r.pick(&[0i64, -5, 2, 1 << 40]) } else { *r.pick(STARTS) };
+    // text, and (when no piece can merge with its neighbour) what the property says the result is
+    let mut text = String::new();
+    let mut expect = String::new();
+    let mut wf = true;
+    let mut k = 0i64;
+    for (i, p) in ps.iter().enumerate() {
+        match p {
+            Piece::Text(s) => { text.push_str(s); expect.push_str(s); }
+            Piece::Dd => { text.push_str("$$"); expect.push_str(&format!("?{}", start + k)); k += 1; }
+            Piece::Num(n, s) => {
+                text.push('$'); text.push_str(s); expect.push_str(&format!("?{}", *n as i64 + start - 1)); k += 1;
+                // the digits must end here: the rest of the text must not begin with a digit
+                let rest: String = ps[i + 1..].iter().map(|q| match q { Piece::Text(s) => s.clone(), Piece::Dd => "$$".into(), Piece::Num(_, s) => format!("${}", s) }).collect();
+                if rest.chars().next().map_or(false, |c| c.is_ascii_digit()) { wf = false; }
+            }
+        }
+    }
+    let mut c = json!({"id": id, "kind": "c04s:replace", "text": text, "start": start});
+    if wf { c["expect"] = json!(expect); }
+    c
+}
+
+const RCHARS: &[&str] = &["$", "$", "$", "0", "1", "9", "7", "a", " ", "?", ",", ")", "ü", "€", "\u{10FFFF}", "$$", "$1", "$12"];
+
+fn gen_replace_random(r: &mut Rng, id: String) -> Value {
+    let n = match r.below(6) { 0 => 0, 1 => 1, 2 => 2, _ => r.below(40) };
+    let text: String = (0..n).map(|_| *r.pick(RCHARS)).collect();
+    let start = if r.chance(1, 10) { *r.pick(&[0i64, -1, i64::MAX, i64::MIN, i64::MAX - 1]) } else { *r.pick(STARTS) };
+    json!({"id": id, "kind": "c04s:replace", "text": text, "start": start})
+}
+
+/// fixed edge cases of the placeholder scanner (incl. numbers that do not fit an i64)
+fn replace_edges() -> Vec<(String, i64)> {
+    let mut v: Vec<(String, i64)> = vec![];
+    for s in ["", "$", "$$", "$$$", "$$$$", "$a", "$ ", "a$", "$1", "$0", "$120", "$1$2", "$1$$", "$$1", "$12a", "$1 2", "$12", "$ü", "ü$$ü", "€$1€",
+        "\u{10FFFF}$", "$\u{10FFFF}", "$١", "$1١", "$９", "?1 $$ ?2", "$-1", "$+1", "$$$1", "$1$", "$01", "$0000000000000000000001",
+        "$9223372036854775807", "$9223372036854775808", "$9223372036854775806", "$99999999999999999999", "$18446744073709551616",
+        " LIMIT $$, $$", "x = $1 AND y = $2 AND z IN ($$, $$, $$)"] {
+        for st in [1i64, 4] { v.push((s.to_string(), st)); }
+    }
+    v.push(("$$ $$".into(), i64::MAX));
+    v.push(("$$".into(), i64::MAX));
+    v.push(("$1".into(), i64::MAX));
+    v.push(("$0".into(), i64::MIN));
+    v.push(("$1".into(), i64::MIN));
+    v.push(("$$ $1 $0".into(), 0));
+    v.push(("$$ $1 $0".into(), -3));
+    v
+}
+
+fn hexu(b: &[u8]) -> String { hex::encode_upper(b) }
+
+/// what SQLite's `GROUP_CONCAT(plaintext || ':' || HEX(name) || ':' || HEX(value))` yields for these tag rows
+fn group_concat(tags: &[(Vec<u8>, Vec<u8>, bool)]) -> Vec<u8> {
+    tags.iter().map(|(n, v, p)| format!("{}:{}:{}", if *p { 1 } else { 0 }, hexu(n), hexu(v))).collect::<Vec<_>>().join(",").into_bytes()
+}
+
+fn gen_tag_rows(r: &mut Rng, small: bool) -> Vec<(Vec<u8>, Vec<u8>, bool)> {
+    let n = if small { r.below(3) } else { match r.below(8) { 0 => 0, 1 => 1, 2 => 40, 3 => 200, _ => r.below(8) } };
+    (0..n).map(|_| {
+        let ln = if small { r.below(3) } else { match r.below(5) { 0 => 0, 1 => 1, 2 => 29, _ => r.below(20) } };
+        let lv = if small { r.below(3) } else { match r.below(5) { 0 => 0, 1 => 1, 2 => 300, _ => r.below(40) } };
+        (r.bytes(ln), r.bytes(lv), r.chance(1, 2))
+    }).collect()
+}
+
+fn tags_json(tags: &[(Vec<u8>, Vec<u8>, bool)]) -> Value {
+    Value::Array(tags.iter().map(|(n, v, p)| json!([hex::encode(n), hex::encode(v), p])).collect())
+}
+
+const DCHARS: &[u8] = b"01:,:,0123456789ABCDEFabcdefgG x\x00\xff";
+
+pub fn gen(r: &mut Rng, thorough: bool, count: Option<usize>) -> Vec<Value> {
+    let scale = |q: usize, t: usize| count.unwrap_or(if thorough { t } else { q });
+    let mut out = vec![];
+    // (1) the encoder, exact text
+    for i in 0..scale(2000, 200_000) {
+        let mut rr = r.fork();
+        let f = any_filter(&mut rr, thorough);
+        let enc = if rr.chance(1, 3) { "raw" } else { "toy" };
+        out.push(json!({"id": format!("c04s-enc-{}", i), "kind": "c04s:encode", "f": f, "start": *rr.pick(STARTS), "enc": enc}));
+    }
+    // (2) replace_arg_placeholders on arbitrary text
+    for (i, (t, st)) in replace_edges().into_iter().enumerate() {
+        out.push(json!({"id": format!("c04s-rpe-{}", i), "kind": "c04s:replace", "text": t, "start": st}));
+    }
+    for i in 0..scale(1500, 100_000) {
+        let mut rr = r.fork();
+        out.push(if i % 2 == 0 { gen_replace_structured(&mut rr, format!("c04s-rps-{}", i)) } else { gen_replace_random(&mut rr, format!("c04s-rpr-{}", i)) });
+    }
+    // (3) decode_tags
+    for i in 0..scale(600, 30_000) {
+        let mut rr = r.fork();
+        let rows = gen_tag_rows(&mut rr, false);
+        out.push(json!({"id": format!("c04s-dtv-{}", i), "kind": "c04s:decode_tags", "hex": hex::encode(group_concat(&rows)), "expect": tags_json(&rows)}));
+    }
+    for i in 0..scale(600, 30_000) {
+        let mut rr = r.fork();
+        let bytes: Vec<u8> = if i % 2 == 0 { let n = rr.below(24); (0..n).map(|_| *rr.pick(DCHARS)).collect() } else { let n = rr.below(40); rr.bytes(n) };
+        out.push(json!({"id": format!("c04s-dtr-{}", i), "kind": "c04s:decode_tags", "hex": hex::encode(bytes)}));
+    }
+    for i in 0..scale(24, 400) {
+        let mut rr = r.fork();
+        let rows = gen_tag_rows(&mut rr, true);
+        out.push(json!({"id": format!("c04s-dtm-{}", i), "kind": "c04s:decode_tags_mut", "hex": hex::encode(group_concat(&rows))}));
+    }
+    // (4) the final statement text
+    for i in 0..scale(400, 20_000) {
+        let mut rr = r.fork();
+        let (stmt, base) = match rr.below(8) {
+            0 | 1 => (json!("count"), Value::Null),
+            2 | 3 => (json!("scan"), Value::Null),
+            4 | 5 => (json!("delete_all"), Value::Null),
+            _ => (Value::Null, json!(*rr.pick(&["SELECT 1 WHERE 1", "  \n\tselect x FROM t WHERE y", "DELETE FROM t WHERE 1", "SELEC", "", " SeLeCt", "UPDATE t SET a = 1 WHERE 1", "xSELECT"]))),
+        };
+        let f = if rr.chance(2, 3) { any_filter(&mut rr, false) } else { Value::Null };
+        let off = match rr.below(4) { 0 => json!(0), 1 => json!(rr.range(-2, 70)), _ => Value::Null };
+        let lim = match rr.below(4) { 0 => json!(-1), 1 => json!(rr.range(-2, 70)), _ => Value::Null };
+        let nparams = if stmt.is_null() { rr.below(6) } else { 3 };
+        out.push(json!({"id": format!("c04s-ext-{}", i), "kind": "c04s:extend", "stmt": stmt, "base": base, "nparams": nparams, "f": f,
+            "off": off, "lim": lim, "order": rr.chance(1, 2), "desc": rr.chance(1, 3), "enc": if rr.chance(1, 3) { "raw" } else { "toy" }}));
+    }
+    out
+}
+
+// ---------------------------------------------------------------------------------------------
+// executor + oracles
+
+fn oracle(sig: &str, detail: Value) -> Value { json!({"sig": sig, "detail": detail}) }
+
+/// the SQLite parameter numbers `?N` of a final text, in textual order
+fn qmarks(sql: &str) -> Vec<i64> {
+    let b = sql.as_bytes();
+    let mut v = vec![];
+    let mut i = 0;
+    while i < b.len() {
+        if b[i] == b'?' {
+            let mut j = i + 1;
+            while j < b.len() && b[j].is_ascii_digit() { j += 1; }
+            v.push(sql[i + 1..j].parse::<i64>().unwrap_or(-1));
+            i = j;
+        } else { i += 1; }
+    }
+    v
+}
+
+fn balanced(sql: &str) -> bool {
+    let mut d = 0i64;
+    for c in sql.chars() { if c == '(' { d += 1 } else if c == ')' { d -= 1; if d < 0 { return false; } } }
+    d == 0
+}
+
+fn exec_encode(case: &Value) -> Value {
+    let mode = case["enc"].as_str().unwrap_or("toy").to_string();
+    let start = case["start"].as_i64().unwrap_or(1);
+    let f = match filter_from_json(&case["f"]) { Some(f) => f, None => return json!({"out": {"err": "bad filter"}}) };
+    let (m1, m2) = (mode.clone(), mode.clone());
+    let res = catch_unwind(AssertUnwindSafe(|| hooks::encode_filter(f, (start - 1) as usize, move |s| enc_name(&m1, s), move |s| enc_value(&m2, s))));
+    let mut fails = vec![];
+    let mut feat = json!({"encode": 1});
+    let out = match res {
+        Err(_) => { fails.push(oracle("encode:panic", case["f"].clone())); json!({"panic": true}) }
+        Ok(Err(e)) => { fails.push(oracle("encode:error", jerr(&e))); jerr(&e) }
+        Ok(Ok(None)) => { feat["no_clause"] = json!(1); json!({"none": true}) }
+        Ok(Ok(Some((sql, raw, args)))) => {
+            // the property's own reading (args_after_fixed): the k-th placeholder of the final text is ?(start+k), one per
+            // argument, nothing is left unreplaced, the clause is a balanced expression
+            let qs = qmarks(&sql);
+            let want: Vec<i64> = (0..args.len() as i64).map(|k| start + k).collect();
+            if qs != want { fails.push(oracle("encode:placeholders-not-sequential", json!({"got": qs, "want": want, "sql": sql}))); }
+            if sql.contains('$') || raw.contains('?') { fails.push(oracle("encode:placeholder-left-over", json!({"sql": sql, "raw": raw}))); }
+            if !balanced(&sql) { fails.push(oracle("encode:unbalanced", json!({"sql": sql}))); }
+            feat["clause"] = json!(1);
+            feat["args"] = json!(args.len());
+            feat["prefix_clauses"] = json!(sql.matches("SUBSTR(value, 1, 12)").count());
+            feat["not_in"] = json!(sql.matches(" NOT IN ").count());
+            feat["zero"] = json!(if sql == "0" || sql.contains("(0") || sql.contains(" 0") { 1 } else { 0 });
+            json!({"sql": sql, "raw": raw, "args": args.iter().map(hex::encode).collect::<Vec<_>>()})
+        }
+    };
+    json!({"out": out, "oracle": fails, "feat": feat})
+}
+
+fn exec_replace(case: &Value) -> Value {
+    let text = case["text"].as_str().unwrap_or("").to_string();
+    let start = case["start"].as_i64().unwrap_or(1);
+    let res = catch_unwind(AssertUnwindSafe(|| hooks::replace_placeholders(&text, start)));
+    let mut fails = vec![];
+    let mut feat = json!({"replace": 1});
+    let out = match res {
+        Err(_) => { fails.push(oracle("replace:panic", json!({"text": text, "start": start}))); feat["replace_panic"] = json!(1); json!({"panic": true}) }
+        Ok(s) => {
+            if let Some(e) = case.get("expect").and_then(|e| e.as_str()) {
+                feat["replace_wf"] = json!(1);
+                if e != s { fails.push(oracle("replace:wrong-output", json!({"text": text, "start": start, "got": s, "want": e}))); }
+            }
+            feat["placeholders"] = json!(qmarks(&s).len());
+            json!({"out": s})
+        }
+    };
+    json!({"out": out, "oracle": fails, "feat": feat})
+}
+
+fn decode_outcome(bytes: Vec<u8>) -> Result<Option<Vec<(Vec<u8>, Vec<u8>, bool)>>, ()> {
+    catch_unwind(AssertUnwindSafe(|| hooks::decode_tags(bytes))).map_err(|_| ())
+}
+
+fn exec_decode(case: &Value) -> Value {
+    let bytes = hex::decode(case["hex"].as_str().unwrap_or("")).unwrap_or_default();
+    let mut fails = vec![];
+    let mut feat = json!({"decode": 1});
+    let out = match decode_outcome(bytes) {
+        Err(()) => { fails.push(oracle("decode_tags:panic", case["hex"].clone())); json!({"panic": true}) }
+        Ok(None) => {
+            feat["decode_err"] = json!(1);
+            if case.get("expect").is_some() { fails.push(oracle("decode_tags:valid-text-rejected", case["hex"].clone())); }
+            json!({"err": true})
+        }
+        Ok(Some(tags)) => {
+            let got = tags_json(&tags);
+            feat["decode_ok"] = json!(1);
+            feat["tags"] = json!(tags.len());
+            if let Some(e) = case.get("expect") { if *e != got { fails.push(oracle("decode_tags:roundtrip-differs", json!({"want": e, "got": got}))); } }
+            json!({"ok": got})
+        }
+    };
+    json!({"out": out, "oracle": fails, "feat": feat})
+}
+
+fn fnv(h: &mut u64, s: &[u8]) { for &b in s { *h = (*h ^ b as u64).wrapping_mul(0x100000001b3); } }
+
+/// every single-byte substitution (255 per position), every proper prefix, every single-byte deletion
+fn mutations(b: &[u8]) -> Vec<Vec<u8>> {
+    let mut v = vec![];
+    for i in 0..b.len() { for x in 0..=255u8 { if x != b[i] { let mut m = b.to_vec(); m[i] = x; v.push(m); } } }
+    for l in 0..b.len() { v.push(b[..l].to_vec()); }
+    for i in 0..b.len() { let mut m = b.to_vec(); m.remove(i); v.push(m); }
+    v
+}
+
+fn exec_decode_mut(case: &Value) -> Value {
+    let bytes = hex::decode(case["hex"].as_str().unwrap_or("")).unwrap_or_default();
+    let (mut ok, mut err, mut panic) = (0u64, 0u64, 0u64);
+    let mut h: u64 = 0xcbf29ce484222325;
+    let mut fails = vec![];
+    for m in mutations(&bytes) {
+        match decode_outcome(m.clone()) {
+            Err(()) => { panic += 1; fnv(&mut h, b"P\n"); if fails.is_empty() { fails.push(oracle("decode_tags:panic", json!(hex::encode(&m)))); } }
+            Ok(None) => { err += 1; fnv(&mut h, b"E\n"); }
+            Ok(Some(tags)) => {
+                ok += 1;
+                let mut s = String::from("O");
+                for (n, v, p) in &tags { s.push_str(&format!("{}{}:{};", if *p { 1 } else { 0 }, hex::encode(n), hex::encode(v))); }
+                s.push('\n');
+                fnv(&mut h, s.as_bytes());
+            }
+        }
+    }
+    json!({"out": {"n": ok + err + panic, "ok": ok, "err": err, "panic": panic, "fnv": format!("{:016x}", h)}, "oracle": fails,
+        "feat": {"decode_mut": 1, "mutations": ok + err + panic, "mut_ok": ok, "mut_err": err}})
+}
+
+fn collapse_ws(s: &str) -> String { s.split_whitespace().collect::<Vec<_>>().join(" ") }
+
+fn exec_extend(case: &Value) -> Value {
+    let mode = case["enc"].as_str().unwrap_or("toy").to_string();
+    let nparams = case["nparams"].as_u64().unwrap_or(0) as usize;
+    let base: String = match case["stmt"].as_str() {
+        Some(name) => match hooks::statement(name) { Some(s) => s.to_string(), None => return json!({"out": {"err": "unknown statement"}}) },
+        None => case["base"].as_str().unwrap_or("").to_string(),
+    };
+    let (off, lim) = (case["off"].as_i64(), case["lim"].as_i64());
+    let (order, desc) = (case["order"].as_bool().unwrap_or(false), case["desc"].as_bool().unwrap_or(false));
+    let mut fails = vec![];
+    let mut nargs = 0usize;
+    let tag_filter = if case["f"].is_null() { None } else {
+        let f = match filter_from_json(&case["f"]) { Some(f) => f, None => return json!({"out": {"err": "bad filter"}}) };
+        let (m1, m2) = (mode.clone(), mode.clone());
+        // as `encode_tag_filter(tag_filter, &key, params.len())`
+        match hooks::encode_filter(f, nparams, move |s| enc_name(&m1, s), move |s| enc_value(&m2, s)) {
+            Ok(Some((sql, _raw, args))) => { nargs = args.len(); Some((sql, args)) }
+            Ok(None) => None,
+            Err(e) => return json!({"out": jerr(&e), "oracle": [oracle("extend:encode-error", jerr(&e))]}),
+        }
+    };
+    let had_filter = tag_filter.is_some();
+    match hooks::extend_query(&base, nparams, tag_filter, off, lim, order, desc) {
+        Err(e) => json!({"out": jerr(&e), "oracle": [oracle("extend:error", jerr(&e))]}),
+        Ok((q, n)) => {
+            let suffix = if q.starts_with(&base) { q[base.len()..].to_string() } else { fails.push(oracle("extend:base-not-prefix", json!(q))); q.clone() };
+            // every parameter bound, every bound parameter used: the suffix's ?N are nparams+1 .. n in order
+            let want: Vec<i64> = (nparams as i64 + 1..=n as i64).collect();
+            if qmarks(&suffix) != want { fails.push(oracle("extend:placeholders-not-sequential", json!({"suffix": suffix, "want": want}))); }
+            let is_select = base.trim_start().to_ascii_uppercase().starts_with("SELECT");
+            let want_n = nparams + nargs + if is_select && (off.is_some() || lim.is_some()) { 2 } else { 0 };
+            if n != want_n { fails.push(oracle("extend:param-count", json!({"got": n, "want": want_n}))); }
+            json!({"out": {"base_ws": collapse_ws(&base), "suffix": suffix, "nparams": n}, "oracle": fails,
+                "feat": {"extend": 1, "ext_filter": had_filter as u32, "ext_limit": (is_select && (off.is_some() || lim.is_some())) as u32, "ext_select": is_select as u32}})
+        }
+    }
+}
+
+pub fn exec(case: &Value, _tag: &str) -> Value {
+    match case["kind"].as_str().unwrap_or("") {
+        "c04s:encode" => exec_encode(case),
+        "c04s:replace" => exec_replace(case),
+        "c04s:decode_tags" => exec_decode(case),
+        "c04s:decode_tags_mut" => exec_decode_mut(case),
+        "c04s:extend" => exec_extend(case),
+        k => json!({"out": {"err": format!("unknown kind {}", k)}}),
+    }
 }
